@@ -102,7 +102,7 @@ theorem peOpen_started (w : World) (p : Proc) (b' : BId) (e x : EId) (b : BId) (
   unfold peOpen
   simp only []
   have h1 : Started (((w.modEv e fun E => { E with results := E.results ++ (applicable w b' e).map fun k => { hid := k, bus := b' } }).setAct p
-      (some { bus := b', ev := e, todo := applicable w b' e, running := [] })).ev x) b k := by
+      (some { bus := b', ev := e, todo := applicable w b' e, running := [], sel := applicable w b' e })).ev x) b k := by
     simp only [setAct_ev, modEv_eq, setEv_ev]
     split
     · rename_i hx; subst hx; exact started_append _ _ _ _ h
